@@ -111,6 +111,16 @@ func vrfNext(tag, kind string) string {
 		return "0"
 	}
 	mv := vrfState.cex.Model[vrfState.pos]
+	if mv.Tag != tag {
+		// inputs drawn only by engine-side models are not consumed natively: skip ahead
+		for j := vrfState.pos; j < len(vrfState.cex.Model); j++ {
+			if vrfState.cex.Model[j].Tag == tag {
+				vrfState.pos = j
+				mv = vrfState.cex.Model[j]
+				break
+			}
+		}
+	}
 	vrfState.pos++
 	if mv.Tag != tag {
 		vrfState.desync++
